@@ -279,7 +279,15 @@ def run_native_each(exe, lines):
         for l in outs:
             if ' r=' in l:
                 res.append(l); done += 1
-        if i + done >= len(lines): break
+        if i + done >= len(lines):
+            if 'LeakSanitizer' in err:
+                # leaks are reported when the process exits: attribute them by running the inputs of this batch one by one
+                if len(lines) - i == 1:
+                    res[-1] = re.sub(r' r=\d+', ' r=0', res[-1], 1) + ' LEAK'
+                else:
+                    del res[len(res) - done:]
+                    for l in lines[i:]: res += run_native_each(exe, [l])
+            break
         # the (i+done)-th input crashed the process
         tag = 'CRASH rc=%d' % rc
         if 'terminate called' in err or 'std::terminate' in err: tag = 'TERMINATE'
